@@ -368,8 +368,8 @@ Section Monitors.
       (* every cookie the middleware would read from this browser is replaced by an empty one *)
       && all_empty_payloads r
       && covers r CMain && covers r CAcc && covers r CRef
-      && covers_chunks r CAccChunk 0 (s_jar_a (carried now rq))
-      && covers_chunks r CRefChunk 0 (s_jar_r (carried now rq))
+      && covers_chunks r CAccChunk 0 (length (s_achunks (carried now rq)))
+      && covers_chunks r CRefChunk 0 (length (s_rchunks (carried now rq)))
       && match r_loc r with
          | Some (LEndSession b hint post) =>
              N.eqb b end_session && negb (N.eqb end_session 0)
@@ -620,6 +620,36 @@ Fixpoint c07_browser (E : env) (cfg : config) (id rt : option tval) (l : list ws
 Definition c07_history (c : wcase) : bool :=
   forallb (fun b => c07_browser (env_of c) (wc_cfg c) None None (of_browser b (wc_steps c))) (browsers_of (wc_steps c)).
 
+(* C17, healing: whatever the jar looked like before, the session a completed login stores is usable
+   by the very next request of that browser (so a login started from unusable cookies does complete) *)
+Fixpoint c17_browser (E : env) (cfg : config) (just : option istr) (l : list wstep) : bool :=
+  match l with
+  | [] => true
+  | s :: r =>
+      let rq := w_rq s in
+      let o := w_obs s in
+      let here :=
+        match just with
+        | Some t =>
+            (* tag 4: the generator sends this request with the jar exactly as the login left it
+               (between other steps the harness may have tampered with the cookies) *)
+            if N.eqb (w_tag s) 4 && gated E cfg rq && comfortably_valid E cfg (w_now s) t
+               && domain_ok E cfg (ti_email (tok E t)) && roles_ok E cfg (TTok t)
+            then forwarded o || (q_options rq && negb (N.eqb (q_origin rq) 0) && N.eqb (r_status o) 200)
+            else true
+        | None => true
+        end in
+      let just' :=
+        match written_by s, r_calls o with
+        | Some (t, _), [PExchange _ _ _ _] => Some t
+        | _, _ => None
+        end in
+      here && c17_browser E cfg just' r
+  end.
+
+Definition c17_history (c : wcase) : bool :=
+  forallb (fun b => c17_browser (env_of c) (wc_cfg c) None (of_browser b (wc_steps c))) (browsers_of (wc_steps c)).
+
 (* ------------------------------------------------------------------ violation predicates (negated monitors) *)
 
 Definition violates_c01 (c : wcase) : bool := negb (steps_all c st_c01).
@@ -638,5 +668,5 @@ Definition violates_c10 (c : wcase) : bool := negb (steps_all c st_c10).
 Definition violates_c11 (c : wcase) : bool := negb (c11_history c).
 Definition violates_c15 (c : wcase) : bool := negb (steps_all c st_c15).
 Definition violates_c16 (c : wcase) : bool := negb (steps_all c st_c16).
-Definition violates_c17 (c : wcase) : bool := negb (steps_all c st_c17).
+Definition violates_c17 (c : wcase) : bool := negb (steps_all c st_c17 && c17_history c).
 Definition violates_c18 (c : wcase) : bool := negb (steps_all c st_c18).
